@@ -127,3 +127,4 @@ pub fn spec_for(kind: &str, r: &mut Rng) -> Spec {
 }
 
 include!("gen_build.rs");
+include!("gen_chain.rs");
